@@ -591,6 +591,42 @@ var C19 = register(&HistProp{ID: "C19",
 		return sim.DrawGenesis(t, sim.GenOpts{ManyEntries: true, UsedInGen: true, MaxAtt: 5, ManyUsed: true, AbsentOpt: true, CaseLimits: true, ManyRegistry: true})
 	},
 	Next: func(g *sim.G, i int) *sim.Op {
+		if op := queuedOp(g); op != nil {
+			return op
+		}
+		if m := g.W.Model; len(m.Pairs) > 0 && len(m.Pairs) <= 8 && g.Pct("drain", 3) {
+			// a registry emptied entry by entry (the last removal must leave the other registries alone)
+			var ops []*sim.Op
+			switch g.Int("drainwhich", 0, 1) {
+			case 0:
+				var ps []sim.PairEntry
+				for _, p := range m.Pairs {
+					ps = append(ps, p)
+				}
+				sort.Slice(ps, func(i, j int) bool {
+					return fmt.Sprintf("%d/%x", ps[i].Domain, ps[i].Token) < fmt.Sprintf("%d/%x", ps[j].Domain, ps[j].Token)
+				})
+				for _, p := range ps {
+					ops = append(ops, sim.TxOp("admin:UnlinkTokenPair", &types.MsgUnlinkTokenPair{From: m.Roles[3], RemoteDomain: p.Domain, RemoteToken: append([]byte{}, p.Token...), LocalToken: p.Local}))
+				}
+			default:
+				var ds []uint32
+				for d := range m.Msgrs {
+					ds = append(ds, d)
+				}
+				sort.Slice(ds, func(i, j int) bool { return ds[i] < ds[j] })
+				if len(ds) > 8 {
+					ds = ds[:8]
+				}
+				for _, d := range ds {
+					ops = append(ops, sim.TxOp("admin:RemoveRemoteTokenMessenger", &types.MsgRemoveRemoteTokenMessenger{From: m.Roles[0], DomainId: d}))
+				}
+			}
+			if len(ops) > 0 {
+				queueOps(g, ops[1:]...)
+				return ops[0]
+			}
+		}
 		return Mix{Admin: 14, Recv: 3, Send: 1, Dep: 1, DepValid: 80, RecvBroken: 15, AdminHolder: 90, Rollback: 6, AttProbe: 3, Restart: 2,
 			AdminTypes: []string{"EnableAttester", "DisableAttester", "LinkTokenPair", "LinkTokenPair", "UnlinkTokenPair", "UnlinkTokenPair", "AddRemoteTokenMessenger", "RemoveRemoteTokenMessenger",
 				"SetMaxBurnAmountPerMessage", "SetMaxBurnAmountPerMessage", "UpdateSignatureThreshold", "UpdateMaxMessageBodySize", "PauseBurningAndMinting", "UnpauseBurningAndMinting", "UpdatePauser"}}.next(g)
